@@ -389,4 +389,19 @@ def step (r : Rec) : Op → E Rec
 /-- a history of calls on a fresh record of the given length -/
 def run (len : Int) (ops : List Op) : E Rec := ops.foldlM step { len := len }
 
+/-- the annotation rewrite without the model limit: what the code does for *any* gene of the record, also one that
+    collections already list (their definition sets are not touched by the rewrite itself — they are re-evaluated
+    by the next `add_cds` of that gene, see `pushDown`) -/
+def setCoresAny (r : Rec) (gid : Nat) (cs : List String) : Rec :=
+  let f := fun (g : Gene) => if g.id == gid then { g with cores := cs } else g
+  { r with genes := r.genes.map f, byName := r.byName.map (fun x => (x.1, f x.2)), cdsCache := r.cdsCache.map f }
+
+def stepLoose (r : Rec) : Op → E Rec
+  | .setCores gid cs => pure (setCoresAny r gid cs)
+  | op => step r op
+
+/-- histories in which genes may be re-annotated at any time (the literal behaviour; the history theorems are
+    stated for `run`, which stops at a rewrite of an already listed gene) -/
+def runLoose (len : Int) (ops : List Op) : E Rec := ops.foldlM stepLoose { len := len }
+
 end ASV.Lookup
